@@ -72,10 +72,13 @@ impl<A: AcceptableMasterList, C: Clock, F: Filter, R: Rng, S: PtpInstanceStateMu
                         .tlv()
                         .find(|tlv| tlv.tlv_type == TlvType::PathTrace)
                     {
-                        // Cannot panic as `list` is large enough to contain up to a whole message
+                        // A host may hand us frames longer than MAX_DATA_LEN (the Linux
+                        // daemon reads up to 2048 octets), so bound the number of entries
+                        // by what `list` can hold.
                         path_trace_ds.list = tlv
                             .value
                             .chunks_exact(8)
+                            .take(path_trace_ds.list.capacity())
                             .map(|ci| ClockIdentity(<[u8; 8]>::try_from(ci).unwrap()))
                             .collect();
                     }
